@@ -245,6 +245,63 @@ def h_insn(params, vals, ctx):
     return decode_matches(isa, mn, expect, o.code, base, vals)
 
 
+def h_field_reject(params, vals, ctx):
+    """The other side of 'in range': a branch distance out of reach (or odd) and an inline number that does not fit its field are
+    refused -- no word is emitted that would decode to something else than what was written."""
+    mn, fms = params["mn"], params["forms"]
+    text, vars_, expect, needs_base = build(mn, fms)
+    if needs_base:
+        require(0 <= vals["B"] < 60000)
+    for e in expect:
+        if e["kind"] in ("g", "r") and isinstance(e.get("reg"), str):
+            require(0 <= vals[e["reg"]] <= 7)
+        if e["kind"] == "disp":
+            d = vals["D"]
+            require(-2000 <= d <= 2000)
+            require(not (e["lo"] <= d - 2 <= e["hi"]) or d % 2 == 1)
+        if e["kind"] == "n":
+            n = vals["N"]
+            require(-300 <= n <= 300)
+            # negative numbers are accepted for 8-bit fields (two's complement); everything else must fit
+            require(not (0 <= n < 2 ** e["bits"]) and not (e["bits"] == 8 and -256 < n < 0))
+    o = assemble([("a.mac", text)], vals, route=ctx.route)
+    ctx.observe_outcome(o)
+    ctx.reach(o.status == "failed")
+    return o.status == "failed" and len(o.errors) >= 1
+
+
+INDEX_EXPRS = [["X", "+", 2, "*", 3], [100, "-", "X", "/", 4], ["X", "*", 2, "+", 3], ["X", "+", "Y", "*", 2], ["X", "-", 2, "-", 4], ["X", "+", 2, "*", 3, "-", "Y"],
+               ["(", "X", "+", 2, ")", "*", 3], ["X", "<<", 1, "+", 1], ["-", "X", "+", 1], ["X", "%", 7, "+", "Y", "*", 3]]
+
+
+def h_index_expr(params, vals, ctx):
+    """An index (or index deferred) operand whose displacement is a compound expression written directly before '(Rn)':
+    the whole expression is the index word, evaluated with the documented precedence."""
+    from ref import expr_eval as ee
+    isa = _isa()
+    toks = INDEX_EXPRS[params["k"]]
+    x, y, r = vals["X"], vals.get("Y", 0), vals["R"]
+    require(-1000 <= x <= 1000 and -1000 <= y <= 1000 and 0 <= r <= 6)
+    tree = ee.parse(toks)
+    expr = ee.render(toks, {"X": "{X}", "Y": "{Y}"})
+    at = "@" if params["deferred"] else ""
+    if params["pos"] == "src":
+        text = f"mov {at}{expr}(%{{R}}), r0\n"
+        expect = [{"kind": "g", "mode": 7 if at else 6, "reg": "R", "ext": "value", "x": "XV"}, {"kind": "g", "mode": 0, "reg": 0, "ext": None}]
+    else:
+        text = f"mov #5, {at}{expr}(%{{R}})\n"
+        expect = [{"kind": "g", "mode": 2, "reg": 7, "ext": "value", "x": "FIVE"}, {"kind": "g", "mode": 7 if at else 6, "reg": "R", "ext": "value", "x": "XV"}]
+    o = assemble([("a.mac", text)], vals, route=ctx.route)
+    ctx.observe_outcome(o)
+    ctx.reach(o.status == "ok")
+    if o.status != "ok" or o.errors:
+        return False
+    v2 = dict(vals)
+    v2["XV"] = ee.evaluate(tree, {"X": x, "Y": y})
+    v2["FIVE"] = 5
+    return decode_matches(isa, "mov", expect, o.code, 0o1000, v2)
+
+
 def h_synonym(params, vals, ctx):
     """Two spellings of one operation in one harness: identical bytes for all operand values."""
     a, b = params["a"], params["b"]
@@ -322,6 +379,21 @@ def obligations(tier, seed):
     for a in F.SYMBOLIC_FORMS:
         for b in F.SYMBOLIC_FORMS:
             add("mov", [a, b])
+    for k in range(len(INDEX_EXPRS)):
+        for pos, deferred in (("src", False), ("dst", True)) if tier == "quick" else (("src", False), ("src", True), ("dst", False), ("dst", True)):
+            vars_ = {"X": "int", "R": "int"}
+            if "Y" in INDEX_EXPRS[k]:
+                vars_["Y"] = "int"
+            obs.append(Ob(oid=f"index-expr/{k}/{pos}{'-deferred' if deferred else ''}", harness="pdpverif.props.c01:h_index_expr", params={"k": k, "pos": pos, "deferred": deferred},
+                          vars=vars_, timeout=200, per_path=60, note=" ".join(map(str, INDEX_EXPRS[k])) + "(%R)"))
+    # the refusing side of every inline field and branch distance
+    for mn in real:
+        kinds = operand_kinds(written_format(mn))
+        if any(k in ("BR", "SOB", "N8", "N6", "N3") for k in kinds):
+            fms = [("reg" if k == "R" else forms_for(k, "quick")[0]) for k in kinds]
+            t, vars_, _, _ = build(mn, fms)
+            obs.append(Ob(oid=f"reject/{mn}", harness="pdpverif.props.c01:h_field_reject", params={"mn": mn, "forms": fms}, vars={v: "int" for v in vars_},
+                          timeout=200, per_path=60, note=t.replace("\n", " / "), pre="distance out of reach or odd / number outside its field, within +-2000 / +-300"))
     for late in (False, True):
         obs.append(Ob(oid=f"lazy-operands/{'late-link' if late else 'link-first'}", harness="pdpverif.props.c01:h_lazy_operands", params={"late": late},
                       vars={"B": "int", "K": "int"}, timeout=300, per_path=90, note="operand values through a forward alias with coefficients -1 and 3"))
